@@ -5,11 +5,11 @@ CONSTANTS
   Blks = {2, 3, 5}
   MinMs = {2}
   Wnds = {16}
-  Variant = "forget"
-  EmitOps = TRUE
+  Variant = "keep"
+  EmitOps = FALSE
   AllowNTL = TRUE
   TwoWrites = TRUE
-INVARIANTS StateInv NoFuture
+INVARIANT StateInv
 PROPERTY Refines
 ACTION_CONSTRAINT Emit
 VIEW View
